@@ -51,11 +51,13 @@ func (k *G1Elt) Equal(k2 kyber.Point) bool {
 }
 
 func (k *G1Elt) Null() kyber.Point {
-	return newG1(bls12381.NewG1().Zero(), k.dst)
+	k.p.Set(bls12381.NewG1().Zero())
+	return k
 }
 
 func (k *G1Elt) Base() kyber.Point {
-	return newG1(bls12381.NewG1().One(), k.dst)
+	k.p.Set(bls12381.NewG1().One())
+	return k
 }
 
 func (k *G1Elt) Pick(rand cipher.Stream) kyber.Point {
